@@ -24,6 +24,11 @@ def instances(tier):
         # records that encode to zero bytes: the policy is consulted all the same
         I("l0_zero", trig="size", count=2, limit=0, sizes=(0, 1), pre="PreB", maxrec=3, restart=1),
         I("l1_zero", trig="size", count=1, limit=1, sizes=(0, 2), pre="PreB", maxrec=3, restart=1),
+        # an encoder that fails after writing part of a record: what it wrote counts, the next appends roll on time
+        I("l2_encfail", trig="size", count=2, limit=2, sizes=(1, 3), pre="PreNone", maxrec=4, encfail=1, restart=1),
+        I("l1_encfail_t", trig="size", append=False, count=1, limit=1, sizes=(1, 2), pre="PreB", maxrec=4, encfail=2),
+        # 400-byte units: two and a half of them fit into the BufWriter, the third is written through
+        I("l3_encfail_buf", trig="size", count=2, limit=3, sizes=(1, 3), pre="PreNone", maxrec=4, encfail=2, buf=2),
         I("big", trig="size", count=2, limit=3, sizes=(1, 2, 4), pre="PreB", maxrec=6, restart=2, hist=False),
         I("big_t", trig="size", count=2, append=False, limit=2, sizes=(1, 2, 3), pre="PreB", maxrec=6, restart=2, hist=False),
     ]
@@ -40,8 +45,9 @@ def run(tier, replay=None):
                 "absent / empty / 1..3 units, append and truncate mode, restarts; units are 10, 16 and 400 bytes "
                 "(400-byte units straddle the 1 KiB buffer); a wrapping Policy compares LogFile::len_estimate() "
                 "with fs::metadata().len() at every consultation and the directory after every append shows "
-                "whether the roll happened exactly when the model's size exceeded the limit; non-trivial = a "
-                "rotation happened")
+                "whether the roll happened exactly when the model's size exceeded the limit; encoder failures "
+                "after 0, 1 or all units of a record (the accepted part is counted and reaches the file with the next "
+                "flush); non-trivial = a rotation happened")
     run.assumptions = ["sizes are multiples of the unit, so byte-exact boundaries are limit*unit +- unit",
                        "byte-vs-character accounting is exercised by the C04 / C09 payloads, not here"]
     return run.finish()
